@@ -11,7 +11,7 @@ from .. import solutions as S
 from .. import spacetime as ST
 from ..common import Run
 
-FIELDS = ["Kdown3", "kappaT", "Kretschmann", "st_RicciS", "gdown4", "Ktrace"]
+FIELDS = ["Kdown3", "kappaT", "Kretschmann", "st_RicciS", "gdown4", "Ktrace", "div_u"]
 TOL = 2e-9
 
 
@@ -142,6 +142,13 @@ def check_case(job):
             got = mod.Kretschmann(p0[0], *X)[c]
             if abs(got - kr) > TOL * max(1.0, abs(kr)):
                 viol("PublishedScalarMatchesMetric", f"Kretschmann = {got!r}, the metric's Kretschmann scalar is {orc['Kretschmann'][0]}")
+    if spec.get("extra") == "Kretschmann" and hasattr(mod, "null_ray_exp_out") and orc.get("div_u") and orc["div_u"][0] is not None:
+        n += 1
+        want = float(orc["div_u"][0])          # D_i s^i for the outward unit normal s^i of the coordinate spheres (K_ij = 0)
+        got = mod.null_ray_exp_out(p0[0], *X)[c]
+        if abs(got - want) > TOL * max(1.0, abs(want)):
+            viol("PublishedScalarMatchesMetric", f"null_ray_exp_out = {got!r}, the expansion of the outgoing null rays of the metric (D_i s^i, K = 0) is "
+                 f"{orc['div_u'][0]} = {want!r}", scalar="null_ray_exp_out")
     if hasattr(mod, "Hprop") and hasattr(mod, "a"):
         n += 1
         g = case["gam"][(0, 0)].c
